@@ -1,3 +1,11 @@
+-- Root of the library: everything `lake build` (bin/setup) has to build.
 import GoguVerif.Go.Val
 import GoguVerif.Go.Run
 import GoguVerif.Kinds.QueueStack
+import GoguVerif.Kinds.Heap
+import GoguVerif.Kinds.Trees
+import GoguVerif.Kinds.Lists
+import GoguVerif.Kinds.Cache
+import GoguVerif.Kinds.Funcs
+import GoguVerif.Theorems.C01
+import GoguVerif.Theorems.C05
